@@ -63,6 +63,7 @@ type zzvFrame struct {
 	pc       uintptr
 	hasPC    bool
 	sigpanic bool
+	tail     string // text after the pc= field of the location line (normally none)
 }
 
 type zzvTrace struct {
@@ -98,7 +99,7 @@ func (t zzvTrace) render() string {
 		}
 		fmt.Fprintf(&b, "%s(%s)\n", sym, f.args)
 		if f.hasPC {
-			fmt.Fprintf(&b, "\t%s:12 +0x1d sp=0xc000012340 fp=0xc000012380 pc=0x%x\n", f.file, f.pc)
+			fmt.Fprintf(&b, "\t%s:12 +0x1d sp=0xc000012340 fp=0xc000012380 pc=0x%x%s\n", f.file, f.pc, f.tail)
 		} else {
 			fmt.Fprintf(&b, "\t%s:12\n", f.file)
 		}
@@ -307,6 +308,14 @@ func TestVerifC14(t *testing.T) {
 				res.Violate("name-depends-on-free-text", fmt.Sprintf("changing %s changed the name from %q to %q", desc, want.name, out.name), map[string]any{"case": d, "text": t2.render()})
 			}
 			res.Class(fmt.Sprintf("B/changed=%v/err=%v", out.name != want.name, out.err != nil))
+		}
+		// text after the pc= field of a location line
+		for i := range frames {
+			i := i
+			for ti, tail := range []string{" ", "\r", "\t", " PII", " extra=0x10", ","} {
+				tail := tail
+				subst(fmt.Sprintf("text after pc= of frame %d -> tail%d", i, ti), func(t *zzvTrace) { t.frames[i].tail = tail })
+			}
 		}
 		for ai, alt := range alts {
 			alt := alt
